@@ -14,7 +14,9 @@ DecisionOK(ev, o) ==
     IF o.pass THEN ev.r = "pass"
     ELSE /\ ev.r = "block"
          /\ IF o.bt = "foreign" THEN ev.bt \in {"flow", "cb", "system", "hotspot"}
-            ELSE ev.bt = o.bt /\ ev.rule \in o.rules
+            ELSE /\ ev.bt = o.bt /\ ev.rule \in o.rules
+                 /\ o.bt = "system" => LET r == CHOOSE x \in sys : x.id = ev.rule IN
+                                         Has(ev, "snap") /\ SysSnapOK(r, ev.t, ev.snap)
 
 \* a logged node reading o against the node nd of the specification, read at time t
 \* (index 4 = error events: nothing in Sentinel records them and the property does not mention them)
